@@ -30,11 +30,18 @@ def _side_of(f, p):
     """'left' when the method computes p @ A (row vectors), 'right' for A @ p (column vectors), A = self.balance_scaling; the einsum
     spelling of either is read from its subscripts.  None when neither form is present."""
     side = None
+
+    def peeled(e):
+        """Operand text with once-bound locals expanded and dtype conversions peeled (casts are judged separately, see rule_a)."""
+        e = expand(f.node, e)
+        while isinstance(e, ast.Call) and isinstance(e.func, ast.Attribute) and e.func.attr == "astype":
+            e = e.func.value
+        return norm(e)
     for n in ast.walk(f.node):
         if isinstance(n, ast.BinOp) and isinstance(n.op, ast.MatMult):
-            if norm(n.left) == p and norm(n.right) == "self.balance_scaling":
+            if peeled(n.left) == p and peeled(n.right) == "self.balance_scaling":
                 side = "left"
-            elif norm(n.right) == p and norm(n.left) == "self.balance_scaling":
+            elif peeled(n.right) == p and peeled(n.left) == "self.balance_scaling":
                 side = "right"
         elif isinstance(n, ast.Call) and norm(n.func) == "np.einsum" and len(n.args) == 3 and isinstance(n.args[0], ast.Constant) and isinstance(n.args[0].value, str):
             spec = n.args[0].value.replace(" ", "")
@@ -120,6 +127,13 @@ def rule_a(ctx):
         s_k = _side_of(ab, ab.params[1])
         ctx.ob(R, ab.qname, f"{k.name}.apply_balance applies the scaling on the same side as AdaptiveBalance.apply_balance ({side})", s_k == side,
                f"applies it as the {s_k} operand convention" if s_k else "", ab.node, evidence=s_k is not None)
+        pimg = ab.params[1]
+        for c_ in ast.walk(ab.node):
+            if isinstance(c_, ast.Call) and isinstance(c_.func, ast.Attribute) and c_.func.attr == "astype" and c_.args and norm(c_.func.value).startswith("self.balance_") \
+                    and norm(c_.args[0]) in (f"{pimg}.dtype", f"{pimg}.img.dtype"):
+                ctx.ob(R, ab.qname, f"{k.name}.apply_balance applies the fitted balance in its own (floating point) precision", False,
+                       f"`{norm(c_)[:80]}` converts the balance to the dtype of the image: for integer-typed swatches / images the matrix entries are truncated and the products wrap, "
+                       "so an exactly fitted map is not reproduced", c_, evidence=True)
     f = m.method(m.cls(MOD, "AdaptiveBalance"), "find_balance")
     ctx.instance(R)
     # the stage object
